@@ -349,12 +349,20 @@ func HarnessC11_dupmarkers() {
 
 // HarnessC11_output: one document, map-rooted, depth <= 2 (quick) / 3 (thorough).
 func HarnessC11_output() {
-	d := 2
 	if vTier() > 0 {
-		d = 3
+		// thorough: depth 3 along one branch: a root map (marked true,
+		// false or not at all) over a depth-2 subtree and a depth-1 subtree
+		root := map[string]any{"a": c11Tree(2), "b": c11Tree(1)}
+		switch ndChoice(3) {
+		case 1:
+			root["$output"] = true
+		case 2:
+			root["$output"] = false
+		}
+		c11Check([]any{root})
+		return
 	}
-	root := c11Tree(d)
-	c11Check([]any{root})
+	c11Check([]any{c11Tree(2)})
 }
 
 // HarnessC11_stream: two documents (depth <= 2 and <= 1); a whole document may be hidden.
